@@ -314,6 +314,11 @@ Definition run_body {C} (fenv : C -> option (fdef C)) (fuel : nat) (m : mem) (c 
   | None => m
   end.
 
+(** the chunk ends with a bare variable: Execute reads the value of the root node from the variable's
+    own frame slot, after the init list has run (a computed expression has its own slot) *)
+Definition last_var (l : list (stmt nat)) : option N :=
+  match rev l with SExpr (EVar x) :: _ => Some x | _ => None end.
+
 Definition y_execute (fuel : nat) (s : ystate) (p : program) : ystate * result :=
   let fenv := nth_error (code s) in
   let '(m1, r) := exl (call_n fenv fuel) (ymem s) 0%Z None (p_stmts p) in
@@ -321,7 +326,11 @@ Definition y_execute (fuel : nat) (s : ystate) (p : program) : ystate * result :
   else
     let m2 := run_inits (call_n fenv fuel) m1 (p_inits p) in
     let m3 := match p_main p with Some k => run_body fenv fuel m2 k | None => m2 end in
-    (with_mem s m3, ROk r).
+    (with_mem s m3,
+     ROk (match p_main p with
+          | Some _ => match last_var (p_stmts p) with Some x => Some (rd m3 x) | None => r end
+          | None => r
+          end)).
 
 (** Eval = compileSrc; Execute *)
 Definition y_eval (fuel : nat) (s : ystate) (c : chunk) : ystate * result :=
